@@ -207,6 +207,9 @@ def oracle(R: Run, sends: dict[int, dict[str, Any]], udp: bool):
     reqs: list[dict[str, Any]] = []   # client TunnellingRequests in send order
     acks: list[dict[str, Any]] = []   # TunnellingAcks delivered to the client
     abstract: list[Any] = []
+    conn_no = 0   # ConnectRequests sent by the client so far: a connection epoch is (this number, channel id) - the
+    #               channel id alone is not enough, a delayed duplicate of an old ConnectResponse can answer a new
+    #               ConnectRequest, and the client then legitimately starts again at counter 0 under the old id
     for (n, t, it, kind, actor, detail) in R.events:
         if kind in ("udp_out", "tcp_out"):
             if kind == "udp_out" and not str(actor).startswith(client_ip + ":"):
@@ -223,9 +226,10 @@ def oracle(R: Run, sends: dict[int, dict[str, Any]], udp: bool):
                 if svc == W.TUNNEL_REQ and len(body) >= 4:
                     c = W.parse_cemi_ldata(body[4:])
                     pid = int.from_bytes(c["tpdu"][2:4], "big") if c and len(c["tpdu"]) >= 4 else -1
-                    reqs.append({"n": n, "t": t, "ch": body[1], "seq": body[2], "pid": pid})
+                    reqs.append({"n": n, "t": t, "ch": body[1], "seq": body[2], "pid": pid, "ep": (conn_no, body[1])})
                     abstract.append(("req", "new" if not any(r["pid"] == pid for r in reqs[:-1]) else "rep"))
                 elif svc == W.CONNECT_REQ:
+                    conn_no += 1
                     abstract.append(("connect_req",))
                 elif svc == W.DISCONNECT_REQ:
                     abstract.append(("disconnect_req",))
@@ -248,19 +252,19 @@ def oracle(R: Run, sends: dict[int, dict[str, Any]], udp: bool):
         elif kind == "op_return":
             abstract.append(("ret", str(detail).rsplit(":", 1)[-1]))
 
-    # --- clause: sequencing per epoch (epoch = channel id carried by the request)
-    first_tx: dict[tuple[int, int], dict[str, Any]] = {}
-    order: dict[int, list[int]] = {}
+    # --- clause: sequencing per epoch (epoch = connection attempt number + channel id carried by the request)
+    first_tx: dict[Any, dict[str, Any]] = {}
+    order: dict[Any, list[int]] = {}
     epochs: list[int] = []
     for r in reqs:
-        if r["ch"] not in order:
-            order[r["ch"]] = []
+        if r["ep"] not in order:
+            order[r["ep"]] = []
             epochs.append(r["ch"])
-        key = (r["ch"], r["pid"])
+        key = (r["ep"], r["pid"])
         if key not in first_tx:
             first_tx[key] = r
-            idx = len(order[r["ch"]])
-            order[r["ch"]].append(r["pid"])
+            idx = len(order[r["ep"]])
+            order[r["ep"]].append(r["pid"])
             want = idx & 0xFF
             if r["seq"] != want:
                 R.violate("C24.sequence", "first-tx-counter!=next" if idx else "first-frame-on-new-channel!=0",
@@ -273,26 +277,26 @@ def oracle(R: Run, sends: dict[int, dict[str, Any]], udp: bool):
                           f"payload {r['pid']} repeated on channel {r['ch']} with counter {r['seq']} != {first_tx[key]['seq']}")
     # --- clause: at most one repetition per epoch over UDP
     if udp:
-        cnt: dict[tuple[int, int], int] = {}
+        cnt: dict[Any, int] = {}
         for r in reqs:
-            k = (r["ch"], r["pid"])
+            k = (r["ep"], r["pid"])
             cnt[k] = cnt.get(k, 0) + 1
             if cnt[k] == 3:
                 R.violate("C24.udp-repeat", "payload-sent-3x-in-epoch",
                           f"payload {r['pid']} transmitted a third time on channel {r['ch']}")
         if any(v == 2 for v in cnt.values()):
             R.probes["repetition_seen"] += 1
-        if len({r["ch"] for r in reqs}) > 1:
+        if len({r["ep"] for r in reqs}) > 1:
             R.probes["multi_epoch"] += 1
     # --- clause: only one request awaits acknowledgement at a time (UDP)
     if udp:
         for i in range(1, len(reqs)):
             p, q = reqs[i - 1], reqs[i]
-            if q["pid"] == p["pid"] and q["ch"] == p["ch"]:
+            if q["pid"] == p["pid"] and q["ep"] == p["ep"]:
                 continue
             if q["t"] - p["t"] >= 1.0 - 1e-9:
                 continue
-            if q["ch"] != p["ch"]:
+            if q["ep"] != p["ep"]:
                 continue  # connection re-established in between
             resolved = any(p["n"] < a["n"] < q["n"] for a in acks)
             if not resolved:
